@@ -142,6 +142,22 @@ pub fn run(params: &[i64], ops: &Rows, mon: &mut Mon) -> Rows {
                 if !take_drops().is_empty() { mon.fail(format!("case{} conversion back dropped a payload", k)); }
                 drop(back);
                 if take_drops().len() != 1 { mon.fail(format!("case{} payload not dropped exactly once", k)); }
+                // the consuming accessors: ok() keeps the success payload and destroys the error payload (once, there and then); unwrap() hands the payload over
+                {
+                    let mk = || -> Result<Tok, Tok> { if op[1] == 0 { Ok(Tok::mk(op[2])) } else { Err(Tok::mk(op[2])) } };
+                    let o = CResult::from(mk()).ok();
+                    if o.is_some() != (op[1] == 0) || o.as_ref().map(|t| t.val()).unwrap_or(op[2]) != op[2] { mon.fail(format!("case{} CResult::ok returns the wrong variant or payload", k)); }
+                    let d = take_drops();
+                    if d.len() != (op[1] != 0) as usize { mon.fail(format!("case{} CResult::ok destroyed {:?} (an error payload must be destroyed once, a success payload kept)", k, d)); }
+                    drop(o);
+                    if take_drops().len() != (op[1] == 0) as usize { mon.fail(format!("case{} payload returned by CResult::ok not destroyed exactly once", k)); }
+                    if op[1] == 0 {
+                        let t = CResult::<Tok, Tok>::from(mk()).unwrap();
+                        if t.val() != op[2] || !take_drops().is_empty() { mon.fail(format!("case{} CResult::unwrap altered or destroyed the payload", k)); }
+                        drop(t);
+                        if take_drops().len() != 1 { mon.fail(format!("case{} payload returned by CResult::unwrap not destroyed exactly once", k)); }
+                    }
+                }
                 r
             }
             3 => {
